@@ -52,15 +52,15 @@ def directed(rng, n):
         k += 1
         lp = rng.choice(loops).replace("%d", str(k))
         inner = lp.replace("BODY", body)
-        in_fun = rng.random() < 0.5 or ex.startswith("return")
+        in_fun = rng.random() < 0.5
         for probe in names:
             if in_fun:
                 src = "fun f() { let i_flag = True %s %s }\nf()\n" % (inner, probe)
             else:
+                # at toplevel a `return` ends the whole evaluation: the probe is never reached, but the toplevel
+                # frame must be left with exactly one binding block (checked on the frame shapes below)
                 src = "let i_flag = True\n%s\n%s\n" % (inner, probe)
-                if ex.startswith("return"):
-                    continue
-            out.append((src, probe, ex, depth))
+            out.append((src, probe, ex, depth, in_fun))
     return out
 
 
@@ -79,7 +79,7 @@ def run(ctx):
     dir_cases = directed(rng, 400 if ctx.thorough else 90)
     srcs = [c[0] for c in dir_cases]
     res = machine.correspondence(ctx, srcs, "directed", resume=0, tick_limit=20000, fuel=150000)
-    for (src, probe, ex, depth), r in zip(dir_cases, res):
+    for (src, probe, ex, depth, in_fun), r in zip(dir_cases, res):
         raw = r["impl_raw"]
         ctx.case({"src": src, "exit": ex or "normal", "depth": depth}, bool(ex))
         ctx.stat("exit " + (ex.split()[0] if ex else "normal"))
@@ -96,22 +96,30 @@ def run(ctx):
                            "cli_command": "garden run <file with the input>"})
         # one toplevel frame with exactly one binding block must remain
         fr = raw.get("frames", [[]])[-1]
-        if fr and not ("return" in ex) and fr[0].get("blocks") != 1:
+        if fr and fr[0].get("blocks") != 1:
             ctx.violation("C06:block-leak:%s" % (ex.split()[0] if ex else "normal"),
                           "toplevel frame holds %d binding blocks after the statement" % fr[0].get("blocks"),
                           {"input": src, "observed": fr})
     # JSON-session probe: toplevel return / break inside blocks must not leak (the property's session form)
     hist = []
-    for i, ex in enumerate(["return 1", "break", "continue"]):
-        loop = "let q%d = 0 while q%d < 1 { q%d += 1 if True { let s%d = 5 %s } }" % (i, i, i, i, ex)
-        hist.append([loop, "s%d" % i])
+    i = 0
+    for ex in ["return 1", "break", "continue"]:
+        for tpl in ["let q%d = 0 while q%d < 1 { q%d += 1 if True { let s%d = 5 EXIT } }",
+                    "for q%d in [1] { let s%d = 5 if True { EXIT } }",
+                    "for q%d in [1, 2] { match Some(q%d) { Some(m%d) => { let s%d = m%d EXIT } None => { 0 } } }",
+                    "let q%d = 0 while q%d < 1 { q%d += 1 for r%d in [3] { let s%d = r%d if True { EXIT } } }"]:
+            i += 1
+            loop = tpl.replace("%d", str(i)).replace("EXIT", ex)
+            hist.append([loop, "s%d" % i])
+            if "for q" in tpl:
+                hist.append([loop, "q%d" % i])
     exe = ctx.impl()
     for loop, probe in hist:
         rs, died, err, rc = oracle.run_history(exe, [{"method": "run", "input": loop}, {"method": "run", "input": probe}])
         ctx.case({"history": [loop, probe]}, True)
         last = rs[-1] if rs else {}
         if died or last.get("kind") != "error" or "No such variable" not in last.get("message", ""):
-            ctx.violation("C06:session-leak:" + loop.split()[-3], "after `%s` the session can still read `%s`: %s" % (loop, probe, last),
+            ctx.violation("C06:session-leak:" + ("return" if "return" in loop else "break" if "break" in loop else "continue"), "after `%s` the session can still read `%s`: %s" % (loop, probe, last),
                           {"history": [loop, probe], "observed": last})
 
 
